@@ -112,14 +112,23 @@ def _audit_file(pid, relname, res):
     return good
 
 
-def props_files(pid):
+# Theorems shared by several properties: the analytic bridge B1 (Gauss/Bridge*.v, GaussInt.v: the algebraic moment
+# functional E IS the normalised Gaussian integral over R) backs every separable-integral property.  It is audited
+# with C16 (integrals and evaluations describe the same functions) on every run, with the others in the thorough tier.
+SHARED = {"BRIDGE": {"always": ("C16",), "thorough": ("C01", "C02", "C07", "C08")}}
+
+
+def props_files(pid, tier=None):
     """Props/<pid>.v plus any Props/<pid>_*.v (a property's theorems may be spread over several files)."""
     d = os.path.join(COQ, "Props")
     names = [pid + ".v"] + sorted(n for n in os.listdir(d) if n.startswith(pid + "_") and n.endswith(".v"))
+    for stem, who in SHARED.items():
+        if pid in who["always"] or (tier == "thorough" and pid in who["thorough"]):
+            names += sorted(n for n in os.listdir(d) if (n == stem + ".v" or n.startswith(stem + "_")) and n.endswith(".v"))
     return [os.path.join("Props", n) for n in names]
 
 
-def audit(pid):
+def audit(pid, tier=None):
     """Compile Props/<pid>.v (and Props/<pid>_*.v), parse theorems and their assumptions."""
     props = os.path.join(COQ, "Props", pid + ".v")
     res = {"obligations": 0, "discharged": 0, "theorems": [], "axioms": [], "broken": [], "_axioms": set(),
@@ -133,9 +142,18 @@ def audit(pid):
     hits = scan_forbidden()
     if hits:
         res["broken"].append("forbidden tokens: " + "; ".join(hits[:10]))
-    good = 0
-    for rel in props_files(pid):
-        good += _audit_file(pid, rel, res)
+    # one coqc per Props file, in parallel (Print Assumptions dominates: ~0.6 s per theorem)
+    from concurrent.futures import ThreadPoolExecutor
+    files = props_files(pid, tier)
+    parts = [{"obligations": 0, "theorems": [], "broken": [], "_axioms": set()} for _ in files]
+    with ThreadPoolExecutor(max_workers=min(8, len(files))) as ex:
+        goods = list(ex.map(lambda fr: _audit_file(pid, fr[0], fr[1]), zip(files, parts)))
+    good = sum(goods)
+    for part in parts:
+        res["obligations"] += part["obligations"]
+        res["theorems"] += part["theorems"]
+        res["broken"] += part["broken"]
+        res["_axioms"].update(part["_axioms"])
     axioms_all = res.pop("_axioms")
     res["axioms"] = sorted(axioms_all)
     res["discharged"] = good if not res["broken"] else min(good, max(0, res["obligations"] - 1))
@@ -146,10 +164,10 @@ def audit(pid):
     return res
 
 
-def coqchk(pid, timeout=3000):
+def coqchk(pid, timeout=3000, tier="thorough"):
     """Thorough tier: re-check the compiled Props files of one property (and everything they depend on) with the
     independent checker coqchk; -o prints the axioms the loaded libraries rely on."""
-    mods = ["GB." + rel[:-2].replace("/", ".") for rel in props_files(pid)]
+    mods = ["GB." + rel[:-2].replace("/", ".") for rel in props_files(pid, tier)]
     try:
         p = subprocess.run(["timeout", str(timeout), "coqchk", "-silent", "-o", "-Q", ".", "GB"] + mods,
                            cwd=COQ, capture_output=True, text=True)
